@@ -1,13 +1,22 @@
 #!/bin/bash
-# tools/seedtest.sh <ID> <patch> [tier] : apply a seeded change to /repo, run the check, undo it.
-ID=$1; PATCH=$2; TIER=${3:-quick}
-cd /repo || exit 2
-if [ -n "$(git status --porcelain --untracked-files=no)" ]; then echo "repo not clean"; exit 2; fi
-git apply "$PATCH" || { echo "patch does not apply"; exit 2; }
+# tools/seedtest.sh <ID> <patch> [tier] : run a property's check against /repo's HEAD plus a seeded change.
+# The change is applied in a throw-away git worktree of /repo (outside /repo and /verif, removed afterwards) and the
+# check is pointed at it with GLUE_VERIF_ROOT, so /repo itself is never modified and concurrent runs do not see the change.
+# SEEDTEST_INPLACE=1 applies it to /repo instead (git apply ... ; git checkout -- .).
+ID=$1; PATCH=$(readlink -f "$2"); TIER=${3:-quick}
+if [ -n "$(git -C /repo status --porcelain --untracked-files=no)" ]; then echo "repo not clean"; exit 2; fi
+if [ -n "${SEEDTEST_INPLACE:-}" ]; then
+  WT=/repo
+  git -C /repo apply "$PATCH" || { echo "patch does not apply"; exit 2; }
+else
+  WT=/tmp/wt-seedtest-$ID-$$
+  git -C /repo worktree add -q --detach $WT HEAD || exit 2
+  git -C $WT apply "$PATCH" || { echo "patch does not apply"; git -C /repo worktree remove --force $WT; exit 2; }
+fi
 # evidence must only ever come from the unchanged tree: keep the committed file aside while the patched tree is checked
 cp /verif/evidence/$ID.json /verif/.work-evidence-$ID.json 2>/dev/null
-cd /verif && ./check $ID $TIER 2>&1 | grep -v "^Traceback\|^  " | tail -${LINES_OUT:-6}
+cd /verif && GLUE_VERIF_ROOT=$WT ./check $ID $TIER ${ONLY:+--only $ONLY} 2>&1 | grep -v "^Traceback\|^  " | tail -${LINES_OUT:-6}
 rc=${PIPESTATUS[0]}
-git -C /repo checkout -- . 
+if [ -n "${SEEDTEST_INPLACE:-}" ]; then git -C /repo checkout -- . ; else git -C /repo worktree remove --force $WT; fi
 [ -f /verif/.work-evidence-$ID.json ] && mv /verif/.work-evidence-$ID.json /verif/evidence/$ID.json
 echo "seedtest $ID rc=$rc"
